@@ -95,7 +95,7 @@ package maptile
 // only on its two clamp branches (the middle branch goes through sin/log, uninterpreted here).
 //@ func At(ll, z)
 //@   mode bv
-//@   modifies nothing
+//@   function
 //@   ensures z <= 30 && ll[0] >= -180 && ll[0] <= 180 ==> result.X < (1 << z)
 //@   ensures z <= 30 && (ll[1] < -85.0511 || ll[1] > 85.0511) ==> result.Y < (1 << z)
 //@   ensures result.Z == z
@@ -118,3 +118,13 @@ package maptile
 //@   mode bv
 //@ lemma edge_parent_child: forall x uint32, z uint32 :: z <= 29 && x < (1 << z) ==> same(float64(x) / float64(uint64(1) << uint64(z)), float64(2 * x) / float64(uint64(1) << uint64(z + 1)))
 //@   mode bv
+
+// ---------------------------------------------------------------- tile sets
+// Merge only ever adds tiles that are set in the argument, and keeps what was there
+//@ func (Set).Merge(s, set)
+//@   mode bv
+//@   requires s != nil
+//@   ensures forall t Tile :: old(has(s, t) && s[t]) ==> has(s, t) && s[t]
+//@   ensures forall t Tile :: has(s, t) && s[t] ==> old(has(s, t) && s[t]) || (has(set, t) && set[t])
+//@   loop 1: invariant forall t Tile :: old(has(s, t) && s[t]) ==> has(s, t) && s[t]
+//@   loop 1: invariant forall t Tile :: has(s, t) && s[t] ==> old(has(s, t) && s[t]) || (has(set, t) && set[t])
